@@ -81,6 +81,21 @@ Definition nil_check (nillable : bool) (v : nat) (has_fixed empty : bool) : nil_
 Definition alternative_type (alts : list (bool * nat)) (declared : nat) : nat :=
   match find (fun a => fst a) alts with Some a => snd a | None => declared end.
 
+(* the outcome of evaluating a test expression: a boolean, or a dynamic XPath error (year overflow, invalid cast,
+   division by zero).  XsdAlternative.test (elements.py, after fix 7f56e74): a test that raises does not hold. *)
+Inductive tres := TBool (b : bool) | TError.
+Definition holds (r : tres) : bool := match r with TBool b => b | TError => false end.
+Definition alternative_type_dyn (alts : list (tres * nat)) (declared : nat) : nat :=
+  alternative_type (map (fun a => (holds (fst a), snd a)) alts) declared.
+(* before the fix an error that is neither a type nor a value error escaped from validation (None) *)
+Fixpoint alternative_type_raise (alts : list (tres * nat)) (declared : nat) : option nat :=
+  match alts with
+  | [] => Some declared
+  | (TError, _) :: _ => None
+  | (TBool true, t) :: _ => Some t
+  | (TBool false, _) :: r => alternative_type_raise r declared
+  end.
+
 (* ------------------------------------------------------------------ declarative side *)
 Inductive chain (e : env) : nat -> nat -> list meth -> Prop :=
 | chain_refl t td : nth_error e t = Some td -> chain e t t []
